@@ -14,6 +14,7 @@ import (
 	"github.com/np-guard/netpol-analyzer/pkg/manifests/fsscanner"
 	"github.com/np-guard/netpol-analyzer/pkg/manifests/parser"
 	"github.com/np-guard/netpol-analyzer/pkg/netpol/eval"
+	"github.com/np-guard/netpol-analyzer/pkg/netpol/internal/common"
 )
 
 var probeIPs = []string{"0.0.0.0", "10.0.0.1", "10.1.2.3", "10.1.2.77", "10.128.0.1", "11.0.0.0", "128.0.0.1", "172.16.0.1", "192.168.0.5", "192.168.1.1", "255.255.255.255"}
@@ -129,6 +130,34 @@ func evalAll(dir string, w *World, env *execEnv, caseStr string) (*Sx, []Violati
 			if !strings.HasSuffix(strings.TrimSpace(stdout), fmt.Sprint(want)) {
 				viols = append(viols, Violation{Prop: "C03", Kind: "eval-command-differs-from-list", Detail: fmt.Sprintf("eval printed %q, list gives %s", strings.TrimSpace(stdout), cs.String()), Case: caseStr})
 				break
+			}
+		}
+	}
+	// the eval command with an external address at one end (--source-ip / --destination-ip) against the list path
+	if len(pods) > 0 {
+		b := pods[0]
+		for _, ext := range []string{"10.1.2.3", "192.168.1.1"} {
+			for _, srcIsIP := range []bool{true, false} {
+				var cs *common.ConnectionSet
+				var cerr error
+				var args []string
+				if srcIsIP {
+					cs, cerr = eval.VerifAllowedConns(pe, ext, b.NS+"/"+b.Name)
+					args = evalArgs(dir, "", "default", b.Name, b.NS, ext, "", "80", "tcp")
+				} else {
+					cs, cerr = eval.VerifAllowedConns(pe, b.NS+"/"+b.Name, ext)
+					args = evalArgs(dir, b.Name, b.NS, "", "default", "", ext, "80", "tcp")
+				}
+				if cerr != nil {
+					continue
+				}
+				stdout, e := cli.VerifRun(args)
+				env.stats["evalw-cli-ip-runs"]++
+				if e != nil {
+					viols = append(viols, Violation{Prop: "C03", Kind: "eval-command-fails", Detail: fmt.Sprintf("eval with an external %s (source=%v) and pod %s/%s fails: %v ; list gives %s", ext, srcIsIP, b.NS, b.Name, e, cs.String()), Case: caseStr})
+				} else if !strings.HasSuffix(strings.TrimSpace(stdout), fmt.Sprint(cs.Contains("80", "TCP"))) {
+					viols = append(viols, Violation{Prop: "C03", Kind: "eval-command-differs-from-list", Detail: fmt.Sprintf("eval with external %s printed %q, list gives %s", ext, strings.TrimSpace(stdout), cs.String()), Case: caseStr})
+				}
 			}
 		}
 	}
